@@ -390,6 +390,8 @@ func (e *Exec) evalBuiltin(st *State, call *ast.CallExpr, name string) []Term {
 			n := e.Ctx.Define("cpn", Ite(Lt(e.S.SlLen(d), e.S.SlLen(s)), e.S.SlLen(d), e.S.SlLen(s)))
 			na := e.Ctx.Fresh("cparr", ArraySort(SInt, e.S.sliceElem(d.Sort)))
 			e.Ctx.Assume(st.PC, Term{fmt.Sprintf("(forall ((i Int)) (! (= (select %s i) (ite (and (<= 0 i) (< i %s)) (select %s i) (select %s i))) :pattern ((select %s i))))", na.S, n.S, e.S.SlArr(s).S, e.S.SlArr(d).S, na.S), SBool})
+			e.Ctx.Assume(st.PC, Implies(Eq(e.S.SlLen(d), e.S.SlLen(s)), e.permPred(na, e.S.SlArr(s), n)))
+			e.noteSliceWrite(st, call, call.Args[0])
 			dl.set(st, e.S.MkSlice(d.Sort, na, e.S.SlLen(d), e.S.SlNil(d)))
 			return []Term{n}
 		}
@@ -630,6 +632,10 @@ func (e *Exec) callFunc(st *State, call *ast.CallExpr, fn *types.Func, recvExpr 
 			key = recvTypeName(fn) + "." + fn.Name()
 		}
 		if pc.Uninterp[key] {
+			return []Term{e.callUninterp(st, call, fn, recvExpr, sel)}
+		}
+		if pc.Opaque[key] && !(e.Fn.C != nil && (e.Fn.C.Reveal[key] || e.Fn.C.Reveal[shortPkg(pkgPathOf(fn))+"."+key])) {
+			// opaque ghost function: an uninterpreted function of its arguments unless revealed
 			return []Term{e.callUninterp(st, call, fn, recvExpr, sel)}
 		}
 	}
